@@ -32,6 +32,7 @@ c.ensures('type', 'self.packet_type == dec_type(encoded_packet)')
 c.ensures('data', 'self.data == dec_data(encoded_packet)')
 c.ensures('binary-only-message', 'implies(self.binary, self.packet_type == 4)')
 c.ensures('decoded-type-is-a-digit', '0 <= self.packet_type and self.packet_type <= 9')
+c.ensures('bytes-only-in-messages', 'self.packet_type == 4 or not is_bin(self.data)')
 c.modifies('self.binary', 'self.packet_type', 'self.data')
 
 c = REG.contract('packet.Packet.__init__', props=['C01', 'C02'])
@@ -51,6 +52,7 @@ c.ensures('decoded-fields', 'implies(encoded_packet is not None, '
 c.ensures('api-packets-ok', 'implies(encoded_packet is None and api_payload(packet_type, data), '
           'packet_ok(self))')
 c.ensures('binary-only-message', 'implies(self.binary, self.packet_type == 4)')
+c.ensures('bytes-only-in-messages', 'self.packet_type == 4 or not is_bin(self.data)')
 c.ensures('decoded-type-is-a-digit', 'implies(encoded_packet is not None, '
           '0 <= self.packet_type and self.packet_type <= 9)')
 c.modifies('self.binary', 'self.packet_type', 'self.data', 'self.encode_cache')
